@@ -1,5 +1,7 @@
 """Pool: plain typed fields (harness data, not part of xsdata)."""
 from dataclasses import dataclass, field
+
+from sim.pool.base import StableHashMeta
 from decimal import Decimal
 from enum import Enum
 from typing import Optional
@@ -22,7 +24,7 @@ class Level(Enum):
 
 
 @dataclass
-class Item:
+class Item(metaclass=StableHashMeta):
     class Meta:
         name = "item"
         namespace = "urn:basic"
@@ -54,7 +56,7 @@ class Item:
 
 
 @dataclass
-class Order:
+class Order(metaclass=StableHashMeta):
     class Meta:
         name = "order"
         namespace = "urn:basic"
@@ -66,7 +68,7 @@ class Order:
 
 
 @dataclass
-class Price:
+class Price(metaclass=StableHashMeta):
     """Simple content with attribute."""
 
     class Meta:
@@ -78,7 +80,7 @@ class Price:
 
 
 @dataclass
-class Catalog:
+class Catalog(metaclass=StableHashMeta):
     class Meta:
         name = "catalog"
         namespace = "urn:basic"
@@ -92,7 +94,7 @@ class Catalog:
 
 
 @dataclass(frozen=True)
-class Point:
+class Point(metaclass=StableHashMeta):
     class Meta:
         name = "point"
         namespace = "urn:basic"
@@ -111,7 +113,7 @@ def dash_name(name: str) -> str:
 
 
 @dataclass
-class Shouty:
+class Shouty(metaclass=StableHashMeta):
     """Class-level name generators."""
 
     class Meta:
